@@ -138,7 +138,13 @@ pub enum Op {
     Commit,
     Clear,
     Reopen,
-    Reorg { depth: u8 },
+    /// keep_soft: issue the reorg without finalising a block that only holds parked signed transactions
+    /// (the engine does not regard such a block as under construction)
+    Reorg {
+        depth: u8,
+        #[serde(default)]
+        keep_soft: bool,
+    },
 }
 
 pub fn amount(i: u8) -> U256 {
@@ -289,7 +295,7 @@ pub fn op_strategy(c: HistCfg) -> BoxedStrategy<Op> {
         v.push((c.w_reopen, Just(Op::Reopen).boxed()));
     }
     if c.w_reorg > 0 {
-        v.push((c.w_reorg, prop_oneof![6 => 0u8..6, 3 => 6u8..13, 1 => 13u8..30].prop_map(|depth| Op::Reorg { depth }).boxed()));
+        v.push((c.w_reorg, (prop_oneof![6 => 0u8..6, 3 => 6u8..13, 1 => 13u8..30], prop::bool::weighted(0.25)).prop_map(|(depth, keep_soft)| Op::Reorg { depth, keep_soft }).boxed()));
     }
     proptest::strategy::Union::new_weighted(v).boxed()
 }
@@ -719,6 +725,11 @@ impl Runner {
         self.open.is_none()
     }
 
+    /// a block that only holds parked signed transactions: the engine counts no transaction in it
+    pub fn soft_open(&self) -> bool {
+        self.open.as_ref().map(|o| o.count == 0 && !o.reqs.is_empty()).unwrap_or(false)
+    }
+
     pub fn account_nonce(&mut self, a: Address) -> u64 {
         match self.inst.call("eth_getTransactionCount", json!([addr_hex(a), "latest"])) {
             Resp::Ok(v) => parse_u64(&v).unwrap_or(0),
@@ -887,7 +898,9 @@ impl Runner {
                 self.model.drop_uncommitted();
                 self.stats.reopens += 1;
             }
-            Op::Reorg { depth } => {
+            Op::Reorg { depth, keep_soft: _ } => {
+                // only C01 issues a reorg over a block that merely holds parked transactions (its own
+                // handling); everywhere else the block is finalised first, as for commit and mine
                 self.to_boundary();
                 let Some(h) = self.model.height() else { return };
                 let n = h.saturating_sub(*depth as u64);
@@ -911,6 +924,7 @@ impl Runner {
                 }
                 self.stats.reorg_accepted += 1;
                 self.model.reorg_to(n);
+                self.open = None;
             } else {
                 self.stats.reorg_noop += 1;
             }
